@@ -7,6 +7,7 @@ import numpy as np
 
 from .. import assume as A
 from .. import spec
+from ..report import FAILED, PROVED, ob
 from ..env import curves, heavy
 from ..symx import con
 from ..symx import harness as H
@@ -229,6 +230,80 @@ def task_remove(shape, variant, ks, U, rational, tier):
 task_remove.contract_fn = "curves.Curve.knot_remove"
 
 
+# --------------------------------------------------------------------------------------
+# engine B: the outcome of a removal does not depend on what was computed before in the same process
+# --------------------------------------------------------------------------------------
+ORDER_CASES = {
+    "p2": ([F(0)] * 3 + [F(1), F(2)] + [F(3)] * 3, [F(1), F(-2), F(4), F(0), F(3)], [F(1)]),
+    "p3": ([F(-2)] * 4 + [F(-1), F(0), F(0)] + [F(1)] * 4, [F(2), F(-1), F(3), F(1, 2), F(-4), F(1), F(5)], [F(0)]),
+    "p1": ([F(0)] * 2 + [F(1), F(2), F(5, 2)] + [F(3)] * 2, [F(0), F(2), F(-1), F(4), F(1)], [F(2), F(1)]),
+}
+
+
+def task_order(name):
+    """knot_remove(nodes, None) after OTHER operations on the same (old, new) knot-vector pair in the same process - an unconstrained projection
+    (update without nodes) on another curve, a refused removal with a tolerance, a removal on another curve - still passes through the old curve at
+    every remaining knot and at both ends, and gives the same result as in a fresh history."""
+    fn = "curves.Curve.knot_remove"
+    U0, P, nodes0 = ORDER_CASES[name]
+    p = U0.count(U0[0]) - 1
+    other = [x * 3 - 1 for x in P]
+    labels = ["nothing", "projection-without-nodes", "projection-refused", "removal-refused", "removal-of-another-curve", "fit_curve-with-other-nodes"]
+    bad, ref = [], None
+    for idx, label in enumerate(labels):
+        # every history works on its own translate of the knot vector (results are translation invariant, C18), so that a history cannot
+        # profit from what an earlier one left behind in the process
+        U = [x + 7 * idx for x in U0]
+        nodes = [x + 7 * idx for x in nodes0]
+        newvec = list(U)
+        for x in nodes:
+            newvec.remove(x)
+        fresh = lambda points, U=U: curves.Curve(list(U), list(points))
+        before = {
+            "nothing": lambda: None,
+            "projection-without-nodes": lambda: fresh(other).update(list(newvec), None),
+            "projection-refused": lambda: _swallow(lambda: fresh(other).update(list(newvec))),
+            "removal-refused": lambda: _swallow(lambda: fresh(other).knot_remove(list(nodes))),
+            "removal-of-another-curve": lambda: fresh(other).knot_remove(list(nodes), None),
+            "fit_curve-with-other-nodes": lambda: curves.Curve(list(newvec)).fit_curve(fresh(other), sorted(set(newvec))[:-1] + [newvec[-1] - F(1, 3)]),
+        }[label]
+        before()
+        c = fresh(P)
+        try:
+            c.knot_remove(list(nodes), None)
+        except Exception as e:
+            bad.append((label, "%s: %s" % (type(e).__name__, str(e)[:60])))
+            continue
+        got = tuple(c.ctrlpoints)
+        miss = [str(k) for k in sorted(set(newvec)) if c(k) != spec.curve_value(list(U), p, P, k)]
+        if tuple(c.knotvector) != tuple(newvec):
+            bad.append((label, "knot vector %s" % (tuple(map(str, c.knotvector)),)))
+        elif miss:
+            bad.append((label, "does not pass through the old curve at the remaining knots %s" % miss))
+        elif ref is not None and got != ref:
+            bad.append((label, "result differs from the fresh history"))
+        if ref is None:
+            ref = got
+    befores, nodes = labels, nodes0
+    if bad:
+        return [ob("%s:history-independent[%s]" % (fn, name), fn, FAILED, "B", "concrete", 0.0,
+                   "knot_remove(%s, None) after '%s': %s (%d of %d histories fail)" % (list(map(str, nodes)), bad[0][0], bad[0][1], len(bad), len(befores)),
+                   dict(kind="c05.order", case=name))]
+    return [ob("%s:history-independent[%s]" % (fn, name), fn, PROVED, "B", "concrete", 0.0,
+               "%d histories before knot_remove(%s, None): same result, passes through the old curve at every remaining knot" % (len(befores), list(map(str, nodes)))),
+            {"_stats": dict(cases=len(befores))}]
+
+
+def _swallow(f):
+    try:
+        f()
+    except ValueError:
+        pass
+
+
+task_order.contract_fn = "curves.Curve.knot_remove"
+
+
 def tasks(tier, seed):
     from ..pyvc.driver import verify
     from ..contracts import curvesv
@@ -240,12 +315,16 @@ def tasks(tier, seed):
             # rational curves: the whole path is the known finding D9; a small sample keeps it visible without paying for blow-ups
             if variant == 0 and sh in ((1, (1,)), (2, (1,))) or (tier != "quick" and variant == 0 and sh[0] in (1, 2) and len(sh[1]) == 1):
                 ts.append((task_remove, (sh, variant, ks, U, True, tier)))
+    ts += [(task_order, (name,)) for name in ORDER_CASES]
     return ts
 
 
 def replay(o):
     """Concrete replay: draws the symbolic control points from the witness point (or small integers)."""
     w = o["witness"]
+    if w["kind"] == "c05.order":
+        r = task_order(w["case"])[0]
+        return r["status"] == FAILED, "same result in every history; interpolation at the remaining knots", r["detail"]
     shape = (w["shape"][0], tuple(w["shape"][1]))
     ks = [F(x) for x in w["ks"]]
     U = spec.shape_vector(shape[0], shape[1], ks)
